@@ -831,6 +831,12 @@ fn config_table(alg: SigAlg, seed: u64, index: u64) -> (String, Vec<(String, Str
   for len in [0usize, 1, 32, 63, 65, 96, 128] {
     row(&format!("sig-len-{len}"), name, jwk.clone(), resize(&sig, len));
   }
+  // the valid signature followed by trailing bytes, and cut short at the end: the bytes received are not a signature
+  for extra in [1usize, 2, 32, 64] {
+    row(&format!("sig-valid-plus-{extra}-trailing"), name, jwk.clone(), [sig.as_slice(), &vec![0xA5u8; extra]].concat());
+  }
+  row("sig-valid-twice", name, jwk.clone(), [sig.as_slice(), sig.as_slice()].concat());
+  row("sig-prefix-63", name, jwk.clone(), sig[..63].to_vec());
   let mut flipped = sig.clone();
   flipped[s.below(64)] ^= 1 << s.below(8);
   row("sig-bitflip", name, jwk.clone(), flipped);
